@@ -3,7 +3,7 @@
     List/NonNull, object / interface / union parents) denotes exactly Ref_local.  Part 1: unfolding
     equations of the model and facts about one field. *)
 From V Require Import Base.Util Gql.Ast Writer.Wop Ts.TsType Ts.TsDen
-     C01.Model C01.Spec C01.TsLemmas C01.TreeDen C01.Proofs C01.EnvDen C01.PlainBase.
+     C01.Model C01.Spec C01.Guards C01.TsLemmas C01.TreeDen C01.Proofs C01.EnvDen C01.PlainBase.
 
 (** * the bodies of the two mutually recursive printer functions, with the recursive calls abstracted *)
 Section Bodies.
@@ -120,40 +120,6 @@ Proof.
 Qed.
 
 (** * plain selection sets *)
-
-Definition sel_key (x : selection) : str :=
-  match x with
-  | SField (Some a) _ _ _ _ => iname a
-  | SField None n _ _ _ => iname n
-  | _ => []
-  end.
-Definition sel_aliased (x : selection) : bool :=
-  match x with SField (Some _) _ _ _ _ => true | _ => false end.
-Definition sel_name (x : selection) : str := match x with SField _ n _ _ _ => iname n | _ => [] end.
-Definition sel_ds (x : selection) : list directive := match x with SField _ _ _ ds _ => ds | _ => [] end.
-Definition sel_sub (x : selection) : list selection :=
-  match x with SField _ _ _ _ (Some ss) => selset_sels ss | _ => [] end.
-Definition sel_has_sub (x : selection) : bool := match x with SField _ _ _ _ (Some _) => true | _ => false end.
-
-(** fields only; an alias is neither [__typename] nor an alias OF [__typename]; response keys pairwise
-    distinct; recursively *)
-Fixpoint plain_sel (x : selection) : bool :=
-  match x with
-  | SField alias name _ _ sub =>
-      match alias with
-      | Some a => negb (str_eqb (iname a) TYPENAME) && negb (str_eqb (iname name) TYPENAME)
-      | None => true
-      end
-      && match sub with
-         | Some (SelSet _ l) =>
-             (fix go (l : list selection) : bool :=
-                match l with [] => true | y :: r => plain_sel y && go r end) l
-             && nodup_keys (map sel_key l)
-         | None => true
-         end
-  | _ => false
-  end.
-Definition plain_list (l : list selection) : bool := forallb plain_sel l && nodup_keys (map sel_key l).
 
 Lemma plain_sel_sub x : plain_sel x = true -> sel_has_sub x = true -> plain_list (sel_sub x) = true.
 Proof.
